@@ -60,6 +60,10 @@ COMMON_ASSUME = [
     "Kani default memory-safety checks are switched off (--no-memory-safety-checks) for these harnesses: the properties are "
     "functional; pointer/bounds checks inside alloc/core roughly double CBMC's cost. Assertions, overflow checks and unwinding "
     "assertions stay on.",
+    "vectors whose elements the code under test reads back and clones (commands[..i].updates for revert, Session::fact_log) are "
+    "Vec::from_raw_parts over STACK arrays of the harness (never reallocated/freed; everything is mem::forget-ed): with heap vectors "
+    "CBMC loses the lengths of the stored String/Keys/Bytes and every clone becomes a symbolic-size allocation (measured: >14 GB). "
+    "The Vec API seen by the code is unchanged.",
     "pre-states are built field by field; assumed about them only: keys inside one map are pairwise distinct (map invariant), "
     "no tombstone is stored in a map that has no prior (representation invariant of LinearFactPerspective, established by "
     "insert/delete/apply_updates: checked by the *_noprior / no_prior harnesses), total number of distinct keys <= 3 (slab capacity)",
